@@ -35,7 +35,7 @@ impl SchemeSpec {
             if *f == "concat" {
                 b.add_function("concat", wirefilter::ConcatFunction::new()).expect("function");
             } else {
-                b.add_function(*f, seams::function_def(f)).expect("function");
+                b.add_function(*f, seams::HookedFn(seams::function_def(f))).expect("function");
             }
         }
         for (ty, kind) in &self.lists {
